@@ -5,7 +5,8 @@ import Gnmi.Lemmas.SubscribeDemo
 
 Theorems about the Subscribe LTS (`Model/SubscribeLTS.lean`).  A *writer step* is a shared
 step `Label.sh l` (tree write `W1`, notification `W2`, `Cache.Add`).  "Blocked in `send`" is the
-sender state `Snd.sending r` with the gate closed (`blocked = true`): `SLabel.sent` is disabled.
+sender state `Snd.sending r` — or `Snd.sendSync`, the `Send` of the sync marker — with the gate closed
+(`blocked = true`): `SLabel.sent` is disabled.
 -/
 namespace Gnmi
 namespace C08
@@ -179,16 +180,32 @@ theorem backlog_bound [Inhabited V] {sys : Sys K T R} (hsw : sys.swap = false) (
 /-! ## The send timer -/
 
 /-- **timer_armed_only_in_send.**  The timer of `sendStreamingResults` is armed exactly while a
-`sendSubscribeResponse` is in progress. -/
+`Send` is pending: inside `sendSubscribeResponse` (`sending r`) or — since the repair of D24, /repo
+commit 5c72e29 — inside `stream.Send(subscribeSync)` (`sendSync`).  Never while the sender waits in
+`queue.Next` for a value to send. -/
 theorem timer_armed_only_in_send [Inhabited V] {sys : Sys K T R} (hsw : sys.swap = false) (wf : sys.WF)
     {c : Cfg K V T R} (h : Reach sys c) (s : Nat) :
-    (c.subs s).armed = true ↔ ∃ r, (c.subs s).snd = .sending r :=
+    (c.subs s).armed = true ↔ ((c.subs s).snd = .sendSync ∨ ∃ r, (c.subs s).snd = .sending r) :=
   (basic_reach hsw wf h s).phase.armed
 
-/-- the expiry transition is enabled exactly while a send is in progress -/
+/-- the timer is not armed while the sender is idle, holds a dequeued item, or is not running -/
+theorem timer_off_outside_send [Inhabited V] {sys : Sys K T R} (hsw : sys.swap = false) (wf : sys.WF)
+    {c : Cfg K V T R} (h : Reach sys c) (s : Nat)
+    (hn : (c.subs s).snd ≠ .sendSync ∧ ∀ r, (c.subs s).snd ≠ .sending r) :
+    (c.subs s).armed = false := by
+  cases ha : (c.subs s).armed with
+  | false => rfl
+  | true =>
+    rcases (timer_armed_only_in_send hsw wf h s).1 ha with h1 | ⟨r, h1⟩
+    · exact absurd h1 hn.1
+    · exact absurd h1 (hn.2 r)
+
+/-- the expiry transition is enabled exactly while a send (of a response or of the sync marker) is
+in progress -/
 theorem expire_enabled_iff [Inhabited V] {sys : Sys K T R} (hsw : sys.swap = false) (wf : sys.WF)
     {c : Cfg K V T R} (h : Reach sys c) (s : Nat) :
-    (∃ c', Step sys c (.sub s .expire) c') ↔ ∃ r, (c.subs s).snd = .sending r := by
+    (∃ c', Step sys c (.sub s .expire) c') ↔
+      ((c.subs s).snd = .sendSync ∨ ∃ r, (c.subs s).snd = .sending r) := by
   rw [← timer_armed_only_in_send hsw wf h s]
   constructor
   · rintro ⟨_, hs⟩
@@ -199,18 +216,69 @@ theorem expire_enabled_iff [Inhabited V] {sys : Sys K T R} (hsw : sys.swap = fal
   · intro ha
     exact ⟨_, Step.sub c s .expire ((c.subs s).finish .timeout) (by simp [subFire, ha])⟩
 
-/-- **stalled_send_terminates.**  From a send in progress (however long it has been blocked)
-the expiry step is enabled, and it ends the RPC with the time-out error: nothing more is sent,
-the registration is removed and the queue closed. -/
+/-- **stalled_send_terminates.**  From a send in progress — of a data response **or of the sync
+marker** (however long it has been blocked) — the expiry step is enabled, and it ends the RPC with
+the time-out error: nothing more is sent, the registration is removed and the queue closed. -/
 theorem stalled_send_terminates [Inhabited V] {sys : Sys K T R} (hsw : sys.swap = false) (wf : sys.WF)
-    {c : Cfg K V T R} (h : Reach sys c) (s : Nat) (r : Resp K V R)
-    (hs : (c.subs s).snd = .sending r) :
+    {c : Cfg K V T R} (h : Reach sys c) (s : Nat)
+    (hs : (c.subs s).snd = .sendSync ∨ ∃ r, (c.subs s).snd = .sending r) :
     ∃ c', Step sys c (.sub s .expire) c' ∧ (c'.subs s).status = some .timeout ∧
       (c'.subs s).sent = (c.subs s).sent ∧ (c'.subs s).registered = false ∧
       (c'.subs s).closed = true ∧ (c'.subs s).snd = .stopped ∧ c'.sh = c.sh := by
-  have ha := (timer_armed_only_in_send hsw wf h s).2 ⟨r, hs⟩
+  have ha := (timer_armed_only_in_send hsw wf h s).2 hs
   refine ⟨_, Step.sub c s .expire ((c.subs s).finish .timeout) (by simp [subFire, ha]), ?_⟩
   simp [setFn_same, Sub.finish]
+
+/-- **stalled_marker_send_terminates.**  The case D24 was about: a client that stops reading before
+the sync marker is delivered (`sendSync`, gate closed) is ended by the timeout like any other. -/
+theorem stalled_marker_send_terminates [Inhabited V] {sys : Sys K T R} (hsw : sys.swap = false) (wf : sys.WF)
+    {c : Cfg K V T R} (h : Reach sys c) (s : Nat) (hs : (c.subs s).snd = .sendSync) :
+    ∃ c', Step sys c (.sub s .expire) c' ∧ (c'.subs s).status = some .timeout ∧
+      (c'.subs s).sent = (c.subs s).sent ∧ (c'.subs s).registered = false ∧
+      (c'.subs s).closed = true ∧ (c'.subs s).snd = .stopped ∧ c'.sh = c.sh :=
+  stalled_send_terminates hsw wf h s (Or.inl hs)
+
+/-- **stall_persists.**  While a `Send` is pending with the client's gate closed, every step of the
+system other than the subscriber's own `expire`, `cancel`, `eof` (it ends the RPC) and `gateOpen`
+leaves it inside the same `Send`, with the timer armed and nothing more sent: the stall lasts until
+the timeout, the client going away, or the client reading again. -/
+theorem stall_persists [Inhabited V] {sys : Sys K T R} (hsw : sys.swap = false) (wf : sys.WF)
+    {c c' : Cfg K V T R} (h : Reach sys c) (s : Nat) {l : Label K V T R}
+    (hs : (c.subs s).snd = .sendSync ∨ ∃ r, (c.subs s).snd = .sending r)
+    (hb : (c.subs s).blocked = true) (hstep : Step sys c l c')
+    (hl : l ≠ .sub s .expire ∧ l ≠ .sub s .cancel ∧ l ≠ .sub s .eof ∧ l ≠ .sub s .gateOpen) :
+    (c'.subs s).snd = (c.subs s).snd ∧ (c'.subs s).armed = true ∧ (c'.subs s).blocked = true ∧
+      (c'.subs s).sent = (c.subs s).sent := by
+  have ha := (timer_armed_only_in_send hsw wf h s).2 hs
+  cases hstep with
+  | shared l1 sh' h1 =>
+    show ((c.subs s).onShared sys _ l1).snd = _ ∧ ((c.subs s).onShared sys _ l1).armed = _ ∧
+      ((c.subs s).onShared sys _ l1).blocked = _ ∧ ((c.subs s).onShared sys _ l1).sent = _
+    rw [onShared_snd, onShared_armed, onShared_blocked, onShared_sent]
+    exact ⟨rfl, ha, hb, rfl⟩
+  | sub s1 l1 b' h1 =>
+    by_cases e : s = s1
+    · subst e
+      show (setFn c.subs s b' s).snd = _ ∧ (setFn c.subs s b' s).armed = _ ∧
+        (setFn c.subs s b' s).blocked = _ ∧ (setFn c.subs s b' s).sent = _
+      rw [setFn_same]
+      have hst := subFire_step h1
+      have hpre := (basic_reach hsw wf h s).phase.pre_snd
+      have hnp : (c.subs s).pc.pre = false := by
+        cases hp : (c.subs s).pc.pre with
+        | false => rfl
+        | true =>
+          have := hpre hp
+          rcases hs with hs | ⟨r, hs⟩ <;> rw [hs] at this <;> cases this
+      clear hpre
+      obtain ⟨h1', h2', h3', h4'⟩ := hl
+      rcases hs with hs | ⟨r, hs⟩ <;>
+      · cases hst <;> simp_all [Sub.startWalk, HPc.pre]
+        all_goals (first | (rename_i why; cases why <;> simp_all [HPc.pre]) | skip)
+    · show (setFn c.subs s1 b' s).snd = _ ∧ (setFn c.subs s1 b' s).armed = _ ∧
+        (setFn c.subs s1 b' s).blocked = _ ∧ (setFn c.subs s1 b' s).sent = _
+      rw [setFn_other _ _ e]
+      exact ⟨rfl, ha, hb, rfl⟩
 
 /-- a stalled subscription that timed out stays ended: no local step except the (irrelevant)
 gate moves is enabled afterwards, so nothing is ever sent again -/
@@ -372,6 +440,42 @@ example : (fireAll Demo.sys Cfg.init (demoStall ++ deliver 1 ++ [.sub 1 .next, .
 example : (fireAll Demo.sys Cfg.init (demoStall ++ [.sub 0 .expire])).map
     (fun c => decide ((c.subs 0).status = some .timeout) && !(c.subs 0).registered &&
       decide ((c.subs 0).sent = [])) = some true := by decide
+
+/-- the case of D24: subscriber 6 (STREAM, `updates_only`) stops reading before its sync marker goes
+out; the sender is inside `Send(subscribeSync)` with the timer armed while two updates are accepted and
+queued behind it -/
+def demoMarkerStall : List Demo.L :=
+  setup ++ hsN 6 7 ++
+  [.sub 6 .gateClose, .sub 6 .next, .sub 6 .build,
+   .sh (.w1Upd 1 8), .sh (.w2 (.upd 1 1)), .sh (.w1Upd 11 71), .sh (.w2 (.upd 11 1))]
+
+/-- `timer_armed_only_in_send`, `stalled_marker_send_terminates`, `stall_persists`: the hypotheses hold
+in a reachable configuration (inside the `Send` of the marker, gate closed, timer armed, writers done,
+backlog queued) … -/
+example : ∃ c : Demo.C, Reach Demo.sys c ∧ (c.subs 6).snd = .sendSync ∧
+    (c.subs 6).blocked = true ∧ (c.subs 6).armed = true ∧ c.sh.pend = [] ∧ (c.subs 6).sent = [] ∧
+    (c.subs 6).q = [(.handle 1 1, 0), (.handle 11 1, 0)] := by
+  obtain ⟨c, hr, hp⟩ := reach_of_trace demoMarkerStall (fun c =>
+    decide ((c.subs 6).snd = .sendSync) && (c.subs 6).blocked && (c.subs 6).armed &&
+    decide (c.sh.pend = []) && decide ((c.subs 6).sent = []) &&
+    decide ((c.subs 6).q = [(.handle 1 1, 0), (.handle 11 1, 0)])) (by decide)
+  simp only [Bool.and_eq_true, decide_eq_true_eq] at hp
+  obtain ⟨⟨⟨⟨⟨h1, h2⟩, h3⟩, h4⟩, h5⟩, h6⟩ := hp
+  exact ⟨c, hr, h1, h2, h3, h4, h5, h6⟩
+
+/-- … and the expiry ends the RPC stalled in the marker `Send` with the time-out error; nothing was
+sent; the other subscribers are untouched -/
+example : (fireAll Demo.sys Cfg.init (demoMarkerStall ++ [.sub 6 .expire])).map
+    (fun c => decide ((c.subs 6).status = some .timeout) && !(c.subs 6).registered && (c.subs 6).closed &&
+      decide ((c.subs 6).snd = .stopped) && !(c.subs 6).armed && decide ((c.subs 6).sent = [])) = some true := by
+  decide
+
+/-- when the client reads again instead, the marker goes out, the timer is disarmed, and the backlog
+follows -/
+example : (fireAll Demo.sys Cfg.init (demoMarkerStall ++ [.sub 6 .gateOpen, .sub 6 .sent] ++ deliver 6)).map
+    (fun c => decide ((c.subs 6).sent = [.sync, .upd 1 8 0]) && !(c.subs 6).armed &&
+      decide ((c.subs 6).snd = .idle)) = some true := by
+  decide
 
 end NonVacuity
 
